@@ -33,7 +33,8 @@ for d in sorted(os.listdir(os.path.join(V, "seeded"))):
     pid = d.split("-")[0]
     meta = {"property": pid, "origin": "sub-agent given only the property text and a scratch worktree" if d.endswith("-a") else
             "sub-agent (round 2) given the property text, a scratch worktree and a one-paragraph description of the first seed to steer it elsewhere" if d.endswith("-b") else
-            "sub-agent (round 3, prompt from tools/mkprompt.py) given the property text with quantifier and anchors, a scratch worktree and one paragraph per earlier seed of the property to steer it elsewhere" if d.endswith("-c") else "reverse patch of a fix: commit"}
+            "sub-agent (round 3, prompt from tools/mkprompt.py) given the property text with quantifier and anchors, a scratch worktree and one paragraph per earlier seed of the property to steer it elsewhere" if d.endswith("-c") else
+            "sub-agent (round 4, prompt from tools/mkprompt.py with a focus hint towards parts of the property the earlier seeds had not touched) given the property text with quantifier and anchors, a scratch worktree and one paragraph per earlier seed" if d.endswith("-d") else "reverse patch of a fix: commit"}
     notes = os.path.join(sd, "NOTES.md")
     if os.path.exists(notes):
         t = open(notes).read()
